@@ -147,7 +147,11 @@ def tlc(cwd, module, cfg, workers=None, timeout=600, simulate=None, depth=None, 
     """Run TLC in `cwd` (a staged copy of spec/). Returns TlcResult. Never raises on a TLC
     'error' (that is data); raises Inconclusive on time-out."""
     meta = os.path.join(cwd, "meta-%s-%d-%s" % (module, int(time.time() * 1000) % 10**9, uuid.uuid4().hex[:8]))
-    args = ["java", "-XX:+UseParallelGC"]
+    # TLC unpacks the standard modules into java.io.tmpdir on every run and leaves them there: it gets a directory of its
+    # own, removed with the run's state directory
+    jtmp = meta + "-tmp"
+    os.makedirs(jtmp, exist_ok=True)
+    args = ["java", "-XX:+UseParallelGC", "-Djava.io.tmpdir=" + jtmp]
     if heap:
         args.append("-Xmx" + heap)
     if xss:
@@ -182,6 +186,7 @@ def tlc(cwd, module, cfg, workers=None, timeout=600, simulate=None, depth=None, 
         raise Inconclusive("TLC timed out after %ds: %s %s" % (timeout, module, cfg))
     finally:
         shutil.rmtree(meta, ignore_errors=True)
+        shutil.rmtree(jtmp, ignore_errors=True)
     return TlcResult(p.returncode, p.stdout, time.time() - t0)
 
 
